@@ -142,12 +142,25 @@ Theorem token_stale_refuted period : 0 < period ->
   winners (trun period stale_race_schedule (tinit 2 period (Some 0))) = 2%nat.
 Proof.
   intros Hp. split; [reflexivity|].
-  unfold trun, run, stale_race_schedule, tinit. cbn [fold_left repeat].
-  cbn [tstep t_pcs t_token t_now nth_error].
   assert (F : token_fresh period period 0 = false).
   { unfold token_fresh. apply Z.ltb_ge. lia. }
-  rewrite F. cbn [set_pc t_pcs t_token t_now upd nth_error tstep]. rewrite F.
-  cbn [set_pc t_pcs t_token t_now upd nth_error tstep]. reflexivity.
+  (* the six steps, one at a time *)
+  assert (E1 : tstep period (mkT period (Some 0) [PStat; PStat]) (Step 0)
+               = mkT period (Some 0) [PRemove; PStat]).
+  { cbn [tstep t_pcs t_token t_now nth_error]. rewrite F. reflexivity. }
+  assert (E2 : tstep period (mkT period (Some 0) [PRemove; PStat]) (Step 1)
+               = mkT period (Some 0) [PRemove; PRemove]).
+  { cbn [tstep t_pcs t_token t_now nth_error]. rewrite F. reflexivity. }
+  assert (E3 : tstep period (mkT period (Some 0) [PRemove; PRemove]) (Step 0)
+               = mkT period None [PCreate; PRemove]) by reflexivity.
+  assert (E4 : tstep period (mkT period None [PCreate; PRemove]) (Step 0)
+               = mkT period (Some period) [PDone true; PRemove]) by reflexivity.
+  assert (E5 : tstep period (mkT period (Some period) [PDone true; PRemove]) (Step 1)
+               = mkT period None [PDone true; PCreate]) by reflexivity.
+  assert (E6 : tstep period (mkT period None [PDone true; PCreate]) (Step 1)
+               = mkT period (Some period) [PDone true; PDone true]) by reflexivity.
+  unfold trun, run, stale_race_schedule, tinit. cbn [fold_left repeat].
+  rewrite E1, E2, E3, E4, E5, E6. reflexivity.
 Qed.
 
 (* one starter alone *)
